@@ -391,6 +391,50 @@ func (r *rewriter) decl(d ast.Decl) {
 	}
 }
 
+// insertYields puts vsync.Yield() before every statement of every statement list in the file (function bodies,
+// blocks, case and select clauses), so that two threads running this code can be interleaved at statement
+// granularity. Function literals are covered because their bodies are blocks too.
+func insertYields(f *ast.File) int {
+	n := 0
+	yield := func() ast.Stmt { return &ast.ExprStmt{X: call(sel("vsync", "StmtYield"))} }
+	with := func(l []ast.Stmt) []ast.Stmt {
+		if len(l) == 0 {
+			return l
+		}
+		out := make([]ast.Stmt, 0, 2*len(l))
+		for _, s := range l {
+			out = append(out, yield(), s)
+			n++
+		}
+		return out
+	}
+	clauseLists := map[*ast.BlockStmt]bool{} // bodies of switch/select hold clauses, not statements
+	ast.Inspect(f, func(x ast.Node) bool {
+		switch b := x.(type) {
+		case *ast.FuncDecl:
+			if b.Name.Name == "init" && b.Recv == nil {
+				return false // package initialisation runs before any scheduler exists
+			}
+		case *ast.SwitchStmt:
+			clauseLists[b.Body] = true
+		case *ast.TypeSwitchStmt:
+			clauseLists[b.Body] = true
+		case *ast.SelectStmt:
+			clauseLists[b.Body] = true
+		case *ast.BlockStmt:
+			if !clauseLists[b] {
+				b.List = with(b.List)
+			}
+		case *ast.CaseClause:
+			b.Body = with(b.Body)
+		case *ast.CommClause:
+			b.Body = with(b.Body)
+		}
+		return true
+	})
+	return n
+}
+
 func uses(f *ast.File, pkg string) bool {
 	found := false
 	ast.Inspect(f, func(n ast.Node) bool {
@@ -409,7 +453,14 @@ func main() {
 	jsonPath := flag.String("json", "", "overlay json to write")
 	base := flag.String("base", "", "overlay json to merge")
 	vsyncSrc := flag.String("vsync", "/verif/internal/vsync/vsync.go", "vsync source injected as "+vsyncPath)
+	yieldList := flag.String("yield", "", "comma separated files (among the arguments) that also get a scheduling point before every statement")
 	flag.Parse()
+	yieldFiles := map[string]bool{}
+	for _, p := range strings.Split(*yieldList, ",") {
+		if p != "" {
+			yieldFiles[p] = true
+		}
+	}
 	overlay := map[string]map[string]string{"Replace": {}}
 	if *base != "" {
 		b, err := os.ReadFile(*base)
@@ -451,8 +502,13 @@ func main() {
 		for _, d := range f.Decls {
 			r.decl(d)
 		}
+		if yieldFiles[path] {
+			counts["statement yield"] += insertYields(f)
+			f.Comments = nil // free-floating comments cannot be placed among position-less inserted statements
+		}
 		// imports: add vsync, drop sync if no longer used
 		var keep []ast.Spec
+		imported := false
 		for _, d := range f.Decls {
 			g, ok := d.(*ast.GenDecl)
 			if !ok || g.Tok != token.IMPORT {
@@ -473,7 +529,15 @@ func main() {
 			}
 			keep = append(keep, &ast.ImportSpec{Name: ast.NewIdent("vsync"), Path: &ast.BasicLit{Kind: token.STRING, Value: `"` + vsyncPath + `"`}})
 			g.Specs = keep
+			if !g.Lparen.IsValid() {
+				g.Lparen, g.Rparen = g.Pos(), g.End()
+			}
+			imported = true
 			break
+		}
+		if !imported {
+			f.Decls = append([]ast.Decl{&ast.GenDecl{Tok: token.IMPORT, Specs: []ast.Spec{
+				&ast.ImportSpec{Name: ast.NewIdent("vsync"), Path: &ast.BasicLit{Kind: token.STRING, Value: `"` + vsyncPath + `"`}}}}}, f.Decls...)
 		}
 		var buf bytes.Buffer
 		if err := format.Node(&buf, fset, f); err != nil {
